@@ -351,6 +351,95 @@ pub fn run_case(ctx: &Ctx, sz: &Sizes, case: u64, proxy: &RouterProxy, global: b
     }
 }
 
+/// "pair" batches: two registrations a few microseconds apart on an otherwise idle router, then
+/// silence. The second route already holds a message; it must reach its handler although nothing
+/// else happens (a registration overlooked by the router thread goes unnoticed as long as later
+/// registrations keep waking it).
+pub fn run_pair_storm(ctx: &Ctx, case: u64) {
+    use std::sync::atomic::AtomicU32;
+    let rep = &ctx.rep;
+    let mut r = Rng::derive(ctx.seed, 0xc07c, case);
+    let trials = ctx.opt_u64("pair_trials", 300);
+    let proxy = RouterProxy::new();
+    let mut problems: Vec<(String, Value)> = Vec::new();
+    let mut done = 0u64;
+    for t in 0..trials {
+        let (txa, rxa) = must("channel", ipc::channel::<M>());
+        let (txb, rxb) = must("channel", ipc::channel::<M>());
+        let tag = t as u32;
+        must("queue", txb.send((tag, 0, Blob(body(mid(case, tag, 0), 16)))));
+        let delivered = Arc::new(AtomicU32::new(0));
+        let dropped = Arc::new(AtomicU32::new(0));
+        struct D(Arc<AtomicU32>);
+        impl Drop for D {
+            fn drop(&mut self) {
+                self.0.fetch_add(1, Ordering::SeqCst);
+            }
+        }
+        let (da, db) = (D(dropped.clone()), D(dropped.clone()));
+        let del = delivered.clone();
+        let gap_ns = r.below(120_000);
+        proxy.add_route(rxa.to_opaque(), Box::new(move |_| { let _d = &da; }));
+        let t0 = now_ns();
+        while now_ns() - t0 < gap_ns {
+            std::hint::spin_loop();
+        }
+        proxy.add_route(
+            rxb.to_opaque(),
+            Box::new(move |om| {
+                let _d = &db;
+                if let Ok((tg, 0, b)) = om.to::<M>() {
+                    if tg == tag && body_diff(mid(case, tag, 0), 16, &b.0).is_none() {
+                        del.fetch_add(1, Ordering::SeqCst);
+                    }
+                }
+            }),
+        );
+        let d2 = delivered.clone();
+        match await_cond(20_000, &move || d2.load(Ordering::SeqCst) > 0) {
+            Ok(true) => {},
+            Ok(false) => {
+                problems.push(("pair:queued-message-never-delivered".into(), json!({"trial": t, "gap_ns": gap_ns,
+                    "why": "route registered right after another one; its queued message never reached the handler although every thread is idle"})));
+                break;
+            },
+            Err(e) => {
+                rep.inconclusive(&format!("c07 pair case {}: {}", case, e));
+                return;
+            },
+        }
+        drop((txa, txb));
+        let d3 = dropped.clone();
+        match await_cond(20_000, &move || d3.load(Ordering::SeqCst) >= 2) {
+            Ok(true) => {},
+            Ok(false) => {
+                problems.push(("pair:handler-never-dropped".into(), json!({"trial": t, "dropped": dropped.load(Ordering::SeqCst)})));
+                break;
+            },
+            Err(e) => {
+                rep.inconclusive(&format!("c07 pair case {}: {}", case, e));
+                return;
+            },
+        }
+        if delivered.load(Ordering::SeqCst) != 1 {
+            problems.push(("pair:message-duplicated".into(), json!({"trial": t, "deliveries": delivered.load(Ordering::SeqCst)})));
+            break;
+        }
+        done += 1;
+    }
+    drop(proxy);
+    rep.case(&("pair-storm", case), true);
+    rep.stat("pair_storm_scenarios", 1);
+    rep.stat("pair_storm_trials", done as i64);
+    let base = json!({"case": case, "variant": variant(), "scenario": "pair-storm", "trials": done});
+    let mut seen = BTreeSet::new();
+    for (k, d) in problems {
+        if seen.insert(k.clone()) {
+            rep.violation(&format!("C07:{}", k), json!({"ctx": base, "problem": d}), ctx.replay(case));
+        }
+    }
+}
+
 pub fn run(ctx: &Ctx) {
     let sz = sizes();
     let n = ctx.opt_u64("cases", if ctx.thorough { 250 } else { 14 });
@@ -363,7 +452,9 @@ pub fn run(ctx: &Ctx) {
         // a registration or a producer that blocks for good (router asleep, queue full) ends the batch
         // through the per-case watchdog instead of hanging it
         let _g = op_begin("router-scenario", case);
-        if global {
+        if ctx.opt_u64("pair", 0) == 1 {
+            run_pair_storm(ctx, case);
+        } else if global {
             run_case(ctx, &sz, case, &ROUTER, true);
         } else {
             if ctx.opt_u64("small", 0) == 1 || ctx.opt_u64("storm", 0) == 1 {
